@@ -104,3 +104,55 @@ func genHuge(r *Rand, n int, thorough bool, emit func(string)) {
 		emit(fmt.Sprintf("huge %d %d %d %s %s", a, b, step, showInts(qi), showInts(qv)))
 	}
 }
+
+func genHandles(r *Rand, n int, thorough bool, emit func(string)) {
+	for i := 0; i < n; i++ {
+		sel := r.Pick([]string{"f", "s"})
+		if r.Chance(1, 12) {
+			emit(fmt.Sprintf("hstress %s %d %d %d %d", sel, r.Range(2, 8), r.Range(1, 8), r.Range(50, 3000), r.Range(1, 1<<30)))
+			continue
+		}
+		k := r.Range(1, 24)
+		toks := make([]string, 0, k)
+		created := 0
+		for j := 0; j < k; j++ {
+			switch r.Intn(8) {
+			case 0, 1:
+				if created < 8 {
+					toks = append(toks, "A")
+					created++
+					continue
+				}
+				fallthrough
+			case 2:
+				toks = append(toks, "L")
+			case 3:
+				toks = append(toks, r.Pick([]string{"GX", "IX", "DX"}))
+			default:
+				if created == 0 {
+					toks = append(toks, "G0")
+					continue
+				}
+				toks = append(toks, r.Pick([]string{"I", "D", "D", "G"})+strconv.Itoa(r.Intn(created)))
+			}
+		}
+		emit("handles " + sel + " " + joinSp(toks))
+	}
+}
+
+func joinSp(ss []string) string {
+	out := ""
+	for i, s := range ss {
+		if i > 0 {
+			out += " "
+		}
+		out += s
+	}
+	return out
+}
+
+func genRace(r *Rand, n int, thorough bool, emit func(string)) {
+	for i := 0; i < n; i++ {
+		emit(fmt.Sprintf("race %d %d %d", r.Range(1, 1<<30), r.PickInt([]int{2, 4, 8, 16}), r.Range(5, 60)))
+	}
+}
